@@ -1,5 +1,114 @@
-import Rtcm.Model.Names
-import Rtcm.Model.Socket
+import Rtcm.Lemmas.Msm
+import Rtcm.Model.Message
 import Rtcm.Gen.Tables
+import Rtcm.Pinned.Sizes
+/-
+  C09 — MSM masks map to the right satellites, signals and cells.
+-/
 namespace Rtcm
+
+abbrev T9 := Rtcm.Gen.tables
+
+/-- For every MSM constellation table, every 64-bit satellite mask, 32-bit signal mask and cell mask:
+    * the satellite / signal / cell counts are the numbers of set bits of the three masks;
+    * the i-th satellite entry is the PRN label of the i-th set bit of the satellite mask (mask
+      order, ID = position counted from the most significant bit);
+    * the k-th cell is the (satellite, signal) pair of the k-th set bit of the cell mask taken
+      satellite-major (position `j` ↦ satellite `j / NSig`, signal `j % NSig`). -/
+theorem C09_maps (T : Tables) (id : Ident) (label a b d : Nat) (sats : List Label) (cells : List (Label × Label))
+    (ha : a < 2 ^ 64) (hb : b < 2 ^ 32) (h : satCellMaps T id label a b d = .ok (sats, cells)) :
+    ∃ prnmap sigmap, (ident3 id).bind (assocGet T.prnsig) = some (prnmap, sigmap)
+      ∧ sats = (setIdx a 64).map (prnLabel T prnmap)
+      ∧ sats.length = popcount a 64
+      ∧ ((setIdx b 32).map (sigLabel T sigmap label)).length = popcount b 32
+      ∧ cells = (setCells d (popcount a 64 * popcount b 32)).map (fun j =>
+          ((sats[j / popcount b 32]?).getD [], ((((setIdx b 32).map (sigLabel T sigmap label))[j % popcount b 32]?).getD [])))
+      ∧ cells.length = popcount d (popcount a 64 * popcount b 32) := by
+  unfold satCellMaps at h
+  split at h
+  · simp at h
+  · rename_i prnmap sigmap hm
+    simp only at h
+    injection h with h
+    injection h with hs hc
+    have l1 : ((setIdx a 64).map (prnLabel T prnmap)).length = popcount a 64 := by
+      rw [List.length_map, setIdx_length_of_lt a 64 ha]
+    have l2 : ((setIdx b 32).map (sigLabel T sigmap label)).length = popcount b 32 := by
+      rw [List.length_map, setIdx_length_of_lt b 32 hb]
+    refine ⟨prnmap, sigmap, hm, hs.symm, by rw [← hs]; exact l1, l2, ?_, ?_⟩
+    · rw [← hc, ← hs, l1, l2]
+    · rw [← hc, List.length_map, l1, l2, setCells_length]
+
+/-- satellites are listed in mask order and cells in cell-mask order -/
+theorem C09_order (mask n : Nat) : (setIdx mask n).Pairwise (· < ·) ∧ (setCells mask n).Pairwise (· < ·) :=
+  ⟨setIdx_sorted mask n, setCells_sorted mask n⟩
+
+/-- exactly the IDs whose mask bit (counted from the most significant bit) is set are listed -/
+theorem C09_membership (mask n i : Nat) : i ∈ setIdx mask n ↔ i ≤ n ∧ mask.testBit (n - i) = true :=
+  mem_setIdx mask n i
+
+/-- satellite or signal IDs outside the defined ranges are reported with the not-available marker
+    under both label options, never with a wrong or garbled code -/
+theorem C09_not_available (T : Tables) (prnmap : List (Nat × Label)) (sigmap : List (Nat × Label × Label))
+    (label idx : Nat) :
+    (assocGet prnmap idx = none → prnLabel T prnmap idx = T.na)
+    ∧ (assocGet sigmap idx = none → sigLabel T sigmap label idx = T.na) := by
+  constructor
+  · intro h; simp [prnLabel, h]
+  · intro h; simp [sigLabel, h]
+
+/-- a defined signal ID gets the RINEX code under the RINEX option and the band label under option 2 -/
+theorem C09_defined_signal (T : Tables) (sigmap : List (Nat × Label × Label)) (label idx : Nat) (band code : Label)
+    (h : assocGet sigmap idx = some (band, code)) :
+    sigLabel T sigmap label idx = if label = 2 then band else code := by
+  simp [sigLabel, h]
+
+/-- the derived label attributes are the map entries at the group index: `PRN_i = satmap[i-1]`,
+    `CELLPRN_k = cellmap[k-1].1`, `CELLSIG_k = cellmap[k-1].2` -/
+theorem C09_label_attributes (p : Payload) (f : FieldSpec) (w i : Nat) (rest : List Nat) (s : DState)
+    (sm : List Label) (cm : List (Label × Label)) (hi : 0 < i)
+    (hsm : s.satmap = some sm) (hcm : s.cellmap = some cm) :
+    (f.ty = .prn → ∀ l, sm[i - 1]? = some l → fieldValue p f w (i :: rest) s = .ok (.text l, 0))
+    ∧ (f.ty = .cprn → ∀ l, cm[i - 1]? = some l → fieldValue p f w (i :: rest) s = .ok (.text l.1, 0))
+    ∧ (f.ty = .csig → ∀ l, cm[i - 1]? = some l → fieldValue p f w (i :: rest) s = .ok (.text l.2, 0)) := by
+  have hne : i ≠ 0 := by omega
+  refine ⟨?_, ?_, ?_⟩ <;> intro ht l hl <;> simp [fieldValue, ht, hsm, hcm, hne, hl]
+
+/-! ### the regenerated tables against the pinned standard -/
+
+def sigCodes (T : Tables) (key : Nat) : List (Nat × Label) :=
+  match assocGet T.prnsig key with
+  | some (_, sm) => sm.map fun e => (e.1, e.2.2)
+  | none => []
+
+def prnTable (T : Tables) (key : Nat) : List (Nat × Label) :=
+  match assocGet T.prnsig key with
+  | some (pm, _) => pm
+  | none => []
+
+/-- Signal labels are the RINEX observation codes RTCM 10403.3 assigns to the signal ID
+    (all seven constellations, entry for entry). -/
+theorem C09_rinex_codes : ∀ e ∈ Pinned.rinex, sigCodes T9 e.1 = e.2 := by decide +kernel
+
+theorem C09_constellations : T9.prnsig.map (·.1) = [107, 108, 109, 110, 111, 112, 113] := by decide +kernel
+
+def seqPrn (n off : Nat) : List (Nat × Label) := (List.range n).map fun i => (i + 1, pad3 (i + 1 + off))
+
+/-- PRN numbering per constellation: GPS / BeiDou 1–63, GLONASS 1–24, Galileo 1–50 plus GIOVE-A/B,
+    SBAS 120–158, QZSS 193–202, NavIC 1–14 -/
+theorem C09_prn_numbering :
+    prnTable T9 107 = seqPrn 63 0 ∧ prnTable T9 112 = seqPrn 63 0 ∧ prnTable T9 108 = seqPrn 24 0
+    ∧ prnTable T9 109 = seqPrn 50 0 ++ [(51, [71, 73, 79, 86, 69, 45, 65]), (52, [71, 73, 79, 86, 69, 45, 66])]
+    ∧ prnTable T9 110 = seqPrn 39 119 ∧ prnTable T9 111 = seqPrn 10 192 ∧ prnTable T9 113 = seqPrn 14 0 := by
+  decide +kernel
+
+theorem C09_na_marker : T9.na = [78, 47, 65] := by decide +kernel
+
+/-- non-vacuity: GPS satellites 1 and 64, signals 2 and 5 (5 is reserved), three of four cells -/
+example : (match satCellMaps T9 ⟨1077, none⟩ 1 (2 ^ 63 + 1) (2 ^ 30 + 2 ^ 27) 0b1101 with
+    | .ok r => decide (r = ([[48, 48, 49], [78, 47, 65]],
+        [([48, 48, 49], [49, 67]), ([48, 48, 49], [78, 47, 65]), ([78, 47, 65], [78, 47, 65])]))
+    | .error _ => false) = true := by
+  decide +kernel
+
 end Rtcm
